@@ -18,7 +18,7 @@ for p in props:
             "replay_cmd_template": "./run replay {path}",
             "engine": d.get("engine", "vcheck"),
             "level_claimed": {"category": d["category"], "text": d["text"], "design_ref": d.get("design", "")},
-            "level_note": d["note"],
+            "level_note": d["note"] + " The enumerated scope was extended by explicit families during the seeding campaign (DESIGN.md §12.5); the evidence file's `rule` text describes exactly what a run enumerated.",
             "technique": d["technique"],
         })
     else:
